@@ -92,3 +92,89 @@ Proof.
   split; [vm_compute; reflexivity|]. split; [exact A|].
   intros E. rewrite E in A. vm_compute in A. discriminate A.
 Qed.
+
+From Coq Require Import Lia.
+
+(** *** the one-shot entry points (Cell.Hash / Hash256 / HashString)
+    They own no state: each call hashes with a map of its own.  Between two
+    calls the application may WRITE into its cells, so a history is a list of
+    (the cell array as it is now, the cell asked for).  [scratch_run keep]
+    models one package-level scratch map shared by all calls: emptied after
+    every call ([keep = false]) or only after a successful one ([keep = true],
+    seeded mutation C02-r8m1: what the sub-trees built before a depth-limit
+    error recorded survives the error and, after a write, is stale). *)
+Section OneShot.
+Variable H : bytes -> bytes.
+
+Definition one_shot (cells : list node) (i : nat) : res bytes :=
+  do im <- snd (new_imm_gen H false cells (S (length cells)) [] i); cell_hash im.
+
+Definition one_shot_run (steps : list (list node * nat)) : list (res bytes) :=
+  map (fun s => one_shot (fst s) (snd s)) steps.
+
+Definition scratch_step (keep : bool) (ch : cache) (cells : list node) (i : nat) : cache * res bytes :=
+  let '(ch1, r) := new_imm_gen H false cells (S (length cells)) ch i in
+  match r with
+  | Ok im => ([], cell_hash im)
+  | Err e => (if keep then ch1 else [], Err e)
+  | Panic p => (if keep then ch1 else [], Panic p)
+  end.
+
+Fixpoint scratch_run (keep : bool) (ch : cache) (steps : list (list node * nat)) : list (res bytes) :=
+  match steps with
+  | [] => []
+  | (cells, i) :: t => let '(ch1, r) := scratch_step keep ch cells i in r :: scratch_run keep ch1 t
+  end.
+
+Lemma one_shot_fresh cells i : refs_forward cells -> one_shot cells i = fresh_hash H cells i.
+Proof.
+  intros Hfw. unfold one_shot, fresh_hash.
+  destruct (hash_cache_independent H cells Hfw (S (length cells)) [] i (cache_ok_nil H cells) ltac:(lia)) as (_ & B).
+  rewrite B. reflexivity.
+Qed.
+
+(** every answer of every history of one-shot requests with arbitrary writes
+    in between (failing requests included) is the fresh answer on the cells as
+    they are at the moment of the call *)
+Theorem one_shot_history_fresh steps :
+  Forall (fun s => refs_forward (fst s)) steps ->
+  one_shot_run steps = map (fun s => fresh_hash H (fst s) (snd s)) steps.
+Proof.
+  induction 1 as [|s t Hs Ht IH]; [reflexivity|].
+  cbn [one_shot_run map]. rewrite (one_shot_fresh _ _ Hs). f_equal. exact IH.
+Qed.
+
+(** a shared scratch map emptied after EVERY call is unobservable *)
+Theorem scratch_cleared_is_one_shot steps : scratch_run false [] steps = one_shot_run steps.
+Proof.
+  induction steps as [|[cells i] t IH]; [reflexivity|].
+  cbn [scratch_run one_shot_run map fst snd]. unfold scratch_step, one_shot.
+  destruct (new_imm_gen H false cells (S (length cells)) [] i) as [ch1 r]. cbn [snd].
+  destruct r as [im|e|p]; cbn [bind]; (f_equal; exact IH).
+Qed.
+End OneShot.
+
+
+(** Not vacuous (C02-r8m1): top -> mid -> pruned branch storing depth 1023.
+    Hash(top) fails (depth 1025) after mid (depth 1024) was built; the
+    application appends a byte to mid; Hash(mid) then answers the hash of the
+    OLD mid when the scratch map survives the error.  ([H] is a parameter of
+    the model; the witness uses the identity, which keeps the terms small.) *)
+Definition os_pruned : node :=
+  mknode true T_PRUNED 1 (bits_of 8 1 ++ bits_of 8 1 ++ zeros 256 ++ bits_of 16 1023) [].
+Definition os_cells (b : bits) : list node :=
+  [mknode false 0 1 [true] [1%nat]; mknode false 0 1 b [2%nat]; os_pruned].
+Definition os_steps : list (list node * nat) := [(os_cells [true], 0%nat); (os_cells (repeat true 9), 1%nat)].
+Definition os_id (b : bytes) : bytes := b.
+Definition os_is_err (r : option (res bytes)) : bool := match r with Some (Err EDepth) => true | _ => false end.
+Definition os_len (r : option (res bytes)) : nat := match r with Some (Ok h) => length h | _ => 0%nat end.
+
+Theorem shared_scratch_kept_on_error_refuted :
+  os_is_err (nth_error (scratch_run os_id true [] os_steps) 0) = true /\
+  nth_error (scratch_run os_id true [] os_steps) 1 = Some (one_shot os_id (os_cells [true]) 1) /\
+  os_len (nth_error (scratch_run os_id true [] os_steps) 1) <> os_len (nth_error (one_shot_run os_id os_steps) 1) /\
+  scratch_run os_id false [] os_steps = one_shot_run os_id os_steps.
+Proof.
+  split; [vm_compute; reflexivity|]. split; [vm_compute; reflexivity|].
+  split; [vm_compute; intros E; discriminate E|apply scratch_cleared_is_one_shot].
+Qed.
